@@ -10,7 +10,7 @@ use serde::Serialize;
 use crate::types::LogId;
 use crate::types::Vote;
 
-#[derive(Debug, Clone, Default, PartialEq, Eq, Serialize, Deserialize)]
+#[derive(Debug, Clone, Default, PartialEq, Eq, Hash, Serialize, Deserialize)]
 pub struct MState {
     pub vote: Option<Vote>,
     pub last: Option<LogId>,
@@ -19,7 +19,7 @@ pub struct MState {
     pub user_data: Option<String>,
 }
 
-#[derive(Debug, Clone, PartialEq, Eq, Serialize, Deserialize)]
+#[derive(Debug, Clone, PartialEq, Eq, Hash, Serialize, Deserialize)]
 pub enum Rec {
     Vote(Vote),
     Append(LogId, String),
